@@ -10,7 +10,7 @@ MP, MPS, MPO, GS, SYM, HQC, BASIS = Q.MP, Q.MPS, Q.MPO, "renormalizer/mps/gs.py"
 
 # callers of _update_mps (closed table; a new caller is an analysis error until classified)
 UPDATE_CALLERS = {
-    ("renormalizer/mps/gs.py", "single_sweep"): "sweep",
+    ("renormalizer/mps/gs.py", "single_sweep"): "run",      # abstract run with versioned events (chain_rules.single_sweep_rule)
     ("renormalizer/mps/mps.py", "Mps._evolve_tdvp_ps2"): "sweep",
     ("renormalizer/mps/mp.py", "MatrixProduct.variational_compress"): "sweep",
     ("renormalizer/cv/zerot.py", None): "out of scope: correction-vector code builds its own operators, OFS unsupported there",
@@ -370,6 +370,8 @@ def run(chk):
     state_swap_rule(chk, src)
     chk.table("update_mps_callers", {f"{k[0]}::{k[1]}": v for k, v in UPDATE_CALLERS.items()})
     # ---- ofs-pair
+    from .chain_rules import single_sweep_rule
+    single_sweep_rule(chk, src, rule_ofs="ofs-pair")
     seen = 0
     for rel in sorted(src.modules):
         for fi in src.funcs_in(rel):
@@ -383,6 +385,8 @@ def run(chk):
                 if (rel, None) in UPDATE_CALLERS:
                     continue
                 raise AnalysisError(f"new caller of _update_mps: {rel}::{fi.qual}; classify it in rules/C17.py (does it swap the operator when OFS is on?)")
+            if UPDATE_CALLERS[key] == "run":
+                continue
             order = Q.stmts_in_order(fi.node)
             for c in calls:
                 obj = unparse(c.func.value)
